@@ -280,10 +280,12 @@ def _iter_mentions(fi, it, word):
 
 # ------------------------------------------------------------------------------------------ R18.a: the taint engine
 class _Site(object):
-    """One iteration over the items of a resources mapping: ``for <key>, <val> in <resources>.items()``."""
+    """One place where resource values are bound together with their names: ``for <key>, <val> in <resources>.items()``
+    (kind 'items'), ``<key>, <val> = <pair>`` for a pair taken from items() (kind 'pair'), ``<resources>[<key>]``
+    (kind 'lookup')."""
 
-    def __init__(self, fi, holder, kname, vname):
-        self.fi, self.holder, self.kname, self.vname = fi, holder, kname, vname
+    def __init__(self, fi, where, kname, vname, kind='items'):
+        self.fi, self.where, self.kname, self.vname, self.kind = fi, where, kname, vname, kind
         self.uses, self.bad, self.rebinds, self.markers = [], [], [], []
         self.shown = False
         self._seen = set()
@@ -302,6 +304,7 @@ class _Taint(object):
 
     Tags:  ('map', kind, own)   a mapping whose *values* are sensitive (kind: 'resources' | 'defaults')
            ('items', kind)      its items() view (or a sorted / listed copy)
+           ('pair', kind)       one (name, value) pair of it
            ('val', key, site)   one value of a resources mapping; ``key`` is the local that holds its name
     """
     MAX_DEPTH = 4
@@ -315,6 +318,15 @@ class _Taint(object):
         self.n_sources = 0
         self._source_ids = set()
         self._stack = []
+        self._cur_fi = None
+
+    def _lookup_site(self, fi, kname, node):
+        key = (fi.key, 'lookup', kname)
+        site = self._site_of.get(key)
+        if site is None:
+            site = self._site_of[key] = _Site(fi, node, kname, '<resources>[%s]' % kname, 'lookup')
+            self.sites.append(site)
+        return site
 
     # -- expression tags -------------------------------------------------------------------------------
     def tags(self, e, env):
@@ -322,6 +334,10 @@ class _Taint(object):
             return {('map', 'resources', norm(e.value) in OWNERS)}
         if isinstance(e, ast.Name) and isinstance(e.ctx, ast.Load):
             return set(env.get(e.id, ()))
+        if isinstance(e, ast.Subscript) and isinstance(e.ctx, ast.Load) and isinstance(e.slice, ast.Name) and self._cur_fi is not None:
+            if any(t[0] == 'map' and t[1] == 'resources' for t in self.tags(e.value, env)):
+                return {('val', e.slice.id, self._lookup_site(self._cur_fi, e.slice.id, e))}
+            return set()
         if isinstance(e, ast.Call):
             f = e.func
             if isinstance(f, ast.Attribute) and f.attr == 'get_defaults_dict':
@@ -404,19 +420,25 @@ class _Taint(object):
         if len(chain) > self.MAX_DEPTH or fi.key in self._stack:
             raise AnalysisError('R18.a: helper chain through %s too deep / recursive to follow' % fi.qualname)
         self._stack.append(fi.key)
+        prev = self._cur_fi
         try:
             self._scan(fi, ptags, chain)
         finally:
             self._stack.pop()
+            self._cur_fi = prev
 
     def _scan(self, fi, ptags, chain):
         mod = fi.mod
+        self._cur_fi = fi
         env = dict((p, set(ts)) for p, ts in ptags.items())
         nodes = list(walk_body(fi.node))
-        assigns, binders = [], []
+        assigns, binders, unpacks = [], [], []
         for n in nodes:
             if isinstance(n, ast.Assign) and len(n.targets) == 1 and isinstance(n.targets[0], ast.Name):
                 assigns.append((n.targets[0].id, n.value))
+            elif isinstance(n, ast.Assign) and len(n.targets) == 1 and isinstance(n.targets[0], (ast.Tuple, ast.List)) and \
+                    len(n.targets[0].elts) == 2 and all(isinstance(x, ast.Name) for x in n.targets[0].elts):
+                unpacks.append(n)
             elif isinstance(n, ast.AnnAssign) and isinstance(n.target, ast.Name) and n.value is not None:
                 assigns.append((n.target.id, n.value))
             elif isinstance(n, ast.NamedExpr) and isinstance(n.target, ast.Name):
@@ -431,31 +453,38 @@ class _Taint(object):
                     if t not in env.setdefault(name, set()):
                         env[name].add(t)
                         changed = True
-            for b in binders:
-                tg = b.target
-                for t in self.tags(b.iter, env):
-                    if t[0] == 'items' and t[1] == 'resources' and isinstance(tg, (ast.Tuple, ast.List)) and len(tg.elts) == 2 and \
+            for b in binders + unpacks:
+                tg = b.target if not isinstance(b, ast.Assign) else b.targets[0]
+                src = b.iter if not isinstance(b, ast.Assign) else b.value
+                want = 'pair' if isinstance(b, ast.Assign) else 'items'
+                for t in self.tags(src, env):
+                    if t[0] == want and t[1] == 'resources' and isinstance(tg, (ast.Tuple, ast.List)) and len(tg.elts) == 2 and \
                             all(isinstance(x, ast.Name) for x in tg.elts):
                         k, v = tg.elts[0].id, tg.elts[1].id
                         site = sites.get(id(b))
                         if site is None:
                             site = self._site_of.get(id(b))
                             if site is None:
-                                site = self._site_of[id(b)] = _Site(fi, b, k, v)
+                                site = self._site_of[id(b)] = _Site(fi, src, k, v, want)
                                 self.sites.append(site)
                             sites[id(b)] = site
                         vt = ('val', k, site)
                         if vt not in env.setdefault(v, set()):
                             env[v].add(vt)
                             changed = True
+                    elif t[0] == 'items' and isinstance(tg, ast.Name) and not isinstance(b, ast.Assign):
+                        pt = ('pair', t[1])
+                        if pt not in env.setdefault(tg.id, set()):
+                            env[tg.id].add(pt)
+                            changed = True
             if not changed:
                 break
         if not env and not any(self.is_source(n) for n in nodes):
             return
         site_targets = set()
-        for b in binders:
+        for b in binders + unpacks:
             if id(b) in sites:
-                for x in ast.walk(b.target):
+                for x in ast.walk(b.target if not isinstance(b, ast.Assign) else b.targets[0]):
                     site_targets.add(id(x))
         # key variables must stay what the iteration bound them to
         keyed = {}
@@ -463,10 +492,20 @@ class _Taint(object):
             for t in ts:
                 if t[0] == 'val' and t[1] is not None:
                     keyed.setdefault((t[1], id(t[2])), t[2])
+        for n in nodes:     # values looked up by name: <resources>[<key>]
+            if isinstance(n, ast.Subscript):
+                for t in self.tags(n, env):
+                    if t[0] == 'val':
+                        keyed.setdefault((t[1], id(t[2])), t[2])
         for (k, _), site in keyed.items():
-            for n in nodes:
-                if isinstance(n, ast.Name) and n.id == k and isinstance(n.ctx, (ast.Store, ast.Del)) and id(n) not in site_targets:
-                    site.rebinds.append((fi, n))
+            stores = [n for n in nodes if isinstance(n, ast.Name) and n.id == k and isinstance(n.ctx, (ast.Store, ast.Del))]
+            if site.kind == 'lookup' and site.fi is fi:
+                # the name the value is looked up by has one binding (a loop over the names, a parameter)
+                stores = stores[1:] if k not in fi.params() else stores
+            else:
+                stores = [n for n in stores if id(n) not in site_targets]
+            for n in stores:
+                site.rebinds.append((fi, n))
         # occurrences
         pending = {}
         for n in nodes:
@@ -521,7 +560,7 @@ class _Taint(object):
             site.use(fi, n, True)
         elif isinstance(par, (ast.Assign, ast.AnnAssign, ast.NamedExpr)) and par.value is n and \
                 all(isinstance(x, ast.Name) for x in (par.targets if isinstance(par, ast.Assign) else [par.target])) and \
-                isinstance(n, ast.Name):
+                isinstance(n, (ast.Name, ast.Subscript)):
             site.use(fi, n, True)      # alias: the new name carries the tag, its uses are judged
         elif self._transfer(fi, n, tag, pending):
             site.use(fi, n, True)      # handed to a helper: judged there
@@ -566,10 +605,21 @@ class _Taint(object):
                 kind = 'emptiness test'
             elif isinstance(par, ast.UnaryOp) and isinstance(par.op, ast.Not):
                 kind = 'emptiness test'
+            elif isinstance(par, ast.Subscript) and par.value is n and isinstance(par.slice, ast.Name) and tag[1] == 'resources' and \
+                    isinstance(par.ctx, ast.Load):
+                kind = 'value looked up by name (judged per use of the value)'
+        elif tag[0] == 'pair':
+            if isinstance(par, ast.Assign) and par.value is n and id(par) in sites:
+                kind = 'pair unpacked into (name, value) (judged per use of the value)'
+            elif isinstance(par, ast.Subscript) and par.value is n and isinstance(par.slice, ast.Constant) and par.slice.value == 0 and \
+                    type(par.slice.value) is int and isinstance(par.ctx, ast.Load):
+                kind = 'name of the pair'
         else:   # items
             if isinstance(par, (ast.For, ast.comprehension)) and par.iter is n:
                 if id(par) in sites:
                     kind = 'iteration over (name, value) pairs (judged per use of the value)'
+                elif isinstance(par.target, ast.Name) and tag[1] == 'resources':
+                    kind = 'iteration over pairs (judged where the pair is taken apart)'
             elif isinstance(par, ast.Call) and isinstance(par.func, ast.Name) and len(par.args) == 1 and par.args[0] is n:
                 if par.func.id in SEQ_THROUGH and (not par.keywords or (par.func.id == 'sorted' and
                                                                          all(_names_only_key(k) for k in par.keywords))):
@@ -589,27 +639,25 @@ class _Taint(object):
 
     # -- the marker --------------------------------------------------------------------------------------
     def _markers(self, fi, k, site, chain, nodes):
-        """Constant-valued expressions that are produced exactly where 'secret' is known to be in the name."""
-        found = []
+        """Constant strings (literals, module-level constants) in value position that are produced exactly where
+        'secret' is known to be in the name, and whether one of them reaches the listing."""
+        mod = fi.mod
         for n in nodes:
-            if isinstance(n, ast.Assign) and len(n.targets) == 1:
-                v = _fold_str(self.repo, fi, n.value)
-                if v and self.polarity(fi, n.value, k) == 1:
-                    found.append((n.value, v))
-            elif isinstance(n, ast.Return) and n.value is not None and chain:
-                v = _fold_str(self.repo, fi, n.value)
-                if v and self.polarity(fi, n.value, k) == 1:
-                    found.append((n.value, v))
-            elif isinstance(n, ast.IfExp):
-                s = self.secret_test(fi, n.test, k)
-                arm = n.body if s == 1 else n.orelse if s == -1 else None
-                if arm is not None:
-                    v = _fold_str(self.repo, fi, arm)
-                    if v:
-                        found.append((arm, v))
-        for e, v in found:
-            site.markers.append((fi, e, v))
-            if self.flows_to_output(fi, e, chain):
+            if not isinstance(n, (ast.Constant, ast.Name, ast.Attribute, ast.BinOp, ast.JoinedStr)) or \
+                    isinstance(getattr(n, 'ctx', None), (ast.Store, ast.Del)):
+                continue
+            par = mod.parents.get(n)
+            if isinstance(par, ast.Dict) and any(n is x for x in par.keys):
+                continue
+            if isinstance(par, (ast.Subscript, ast.Compare, ast.Attribute, ast.BinOp, ast.JoinedStr, ast.FormattedValue, ast.Expr)):
+                continue
+            if isinstance(par, ast.Call) and par.func is n:
+                continue
+            v = _fold_str(self.repo, fi, n)
+            if not v or self.polarity(fi, n, k) != 1:
+                continue
+            site.markers.append((fi, n, v))
+            if self.flows_to_output(fi, n, chain):
                 site.shown = True
 
     def flows_to_output(self, fi, node, chain, depth=0):
@@ -674,20 +722,20 @@ def _r18a(rep, repo, meta):
         rep.check('R18.a', fkey(fi, 'key variable intact') + sfx, not rb,
                   "the 'secret' test looks at the resource name itself" if not rb else
                   'the key variable %s is re-bound (truncated / transformed) in %s: the "secret" decision is made on '
-                  'something else than the resource name' % (kv, rb[0][0].qualname), meta, rb[0][1] if rb else site.holder.iter)
+                  'something else than the resource name' % (kv, rb[0][0].qualname), meta, rb[0][1] if rb else site.where)
         ok = not site.bad and bool(site.markers) and bool(site.uses)
         rep.check('R18.a', fkey(fi, 'items() loop') + sfx, ok,
                   "the value variable %s is evaluated only where ('secret' in %s) is false (%d uses); the other branch yields the constant %r"
                   % (vv, kv, len(site.uses), site.markers[0][2] if site.markers else None) if ok else
                   'a resource value is used without the "secret" test being false (%d unguarded uses%s) or no redaction marker is produced'
                   % (len(site.bad), ', first in %s: %s' % (site.bad[0][0].qualname, short(fi.mod.parents.get(site.bad[0][1]), 60)) if site.bad else ''),
-                  meta, site.bad[0][1] if site.bad else site.holder.iter)
+                  meta, site.bad[0][1] if site.bad else site.where)
         ok2 = site.shown and not site.bad
         rep.check('R18.a', fkey(fi, 'output value') + sfx, ok2,
                   'the listed value is the branch result (marker %r for secret names), never the raw value'
                   % (site.markers[0][2] if site.markers else None) if ok2 else
                   ('the raw resource value is put into the output' if site.bad else
-                   'the redaction marker does not reach the listing'), meta, site.bad[0][1] if site.bad else site.holder.iter)
+                   'the redaction marker does not reach the listing'), meta, site.bad[0][1] if site.bad else site.where)
     if not tn.sites and all(k is not None for _, _, k, _ in tn.reads):
         raise AnalysisError('meta.py: no iteration over the (name, value) pairs of a .resources mapping found (the resource listing '
                             'could not be located)')
